@@ -26,6 +26,10 @@ allowed = z3.Function("grammar_char_allowed", S, B)
 tok_numeric = z3.Function("Token_is_numeric", S, B)   # Token(text, grammar=g).is_numeric()
 tok_datetime = z3.Function("Token_is_datetime", S, B)
 lower = z3.Function("str_lower", S, S)
+only_c = z3.Function("only_the_supported_multichar_comment_pair", I, B)   # every pair of the table is ("/*", "*/")
+tok_is = z3.Function("Token_predicate_of_text", I, S, B)       # (predicate id, text) for the lexer's own tokens
+prefix_at = z3.Function("text_starts_with_one_of_at", I, S, I, B)   # (tuple-expression id, text, position)
+suffix_any = z3.Function("text_ends_with_one_of", I, S, B)
 NONE_END = z3.Const("no_end", S)
 
 TABLES = {}
@@ -66,6 +70,8 @@ class LexTheory(ObjTheory):
         return super().axioms() + [
             z3.ForAll([a, b], strlen(strcat(a, b)) == strlen(a) + strlen(b), patterns=[strcat(a, b)]),
             z3.ForAll([k], pairs_len(k) >= 0, patterns=[pairs_len(k)]),
+            z3.ForAll([k, a, b], z3.Implies(z3.And(only_c(k), pairs_has(k, a, b)), z3.And(a == lit("/*"), b == lit("*/"))),
+                      patterns=[z3.MultiPattern(only_c(k), pairs_has(k, a, b))]),
             z3.ForAll([k, a], z3.Implies(map_has(k, a), map_hasval(k, map_get(k, a))), patterns=[map_get(k, a)]),
         ]
 
@@ -115,7 +121,7 @@ class LexTheory(ObjTheory):
         return super().coerce_result(ex, res_kind, v)
 
     def global_name(self, ex, name):
-        if name in ("Preserve", "dict", "Token", "tuple"):
+        if name in ("Preserve", "dict", "Token", "tuple", "enumerate", "LexerError"):
             return FuncV(name)
         return super().global_name(ex, name)
 
@@ -255,7 +261,14 @@ class LexTheory(ObjTheory):
                 raise Untranslatable("Token(...)")
             return ObjV("token", info={"text": t})
         if isinstance(fv, FuncV) and fv.name == "tuple":
+            if len(args) == 1 and isinstance(args[0], ObjV) and args[0].role == "opaque-gen":
+                return ObjV("opaque-tuple", info={"id": tid("expr:" + args[0].info["src"]), "src": args[0].info["src"]})
             raise Untranslatable("tuple(...)")
+        if isinstance(fv, FuncV) and fv.name == "enumerate":
+            t = sval(args[0])
+            if t is None:
+                raise Untranslatable("enumerate(non-text)")
+            return ObjV("enum-chars", info={"text": t})
         return super().call(ex, fv, args, kwargs, node)
 
     def call_method(self, ex, recv, name, args, kwargs):
@@ -273,9 +286,16 @@ class LexTheory(ObjTheory):
                 return Z("bool", tok_numeric(recv.info["text"]))
             if recv.role == "token" and name == "is_datetime":
                 return Z("bool", tok_datetime(recv.info["text"]))
+            if recv.role == "token" and name.startswith("is_") and not args:
+                return Z("bool", tok_is(tid("pred:" + name), recv.info["text"]))
         s = sval(recv)
         if s is not None and name == "lower":
             return Z("str", lower(s))
+        if s is not None and name in ("startswith", "endswith") and args and isinstance(args[0], ObjV) and args[0].role == "opaque-tuple":
+            if name == "startswith":
+                pos = ex.as_int(args[1]) if len(args) > 1 else z3.IntVal(0)
+                return Z("bool", prefix_at(args[0].info["id"], s, pos))
+            return Z("bool", suffix_any(args[0].info["id"], s))
         return super().call_method(ex, recv, name, args, kwargs)
 
     def b_len(self, ex, args, kwargs):
@@ -284,8 +304,30 @@ class LexTheory(ObjTheory):
             return Z("int", pairs_len(v.info["id"]))
         return super().b_len(ex, args, kwargs)
 
+    def comprehension(self, ex, node):
+        # tuple(p[0] for p in g.comments): a tuple of texts taken from a grammar table, named by its expression
+        return ObjV("opaque-gen", info={"src": ast.unparse(node)})
+
+    def havoc_value(self, ex, old, nm):
+        if isinstance(old, ObjV) and old.role == "rec":
+            return self.fresh_of_kind("preserve", nm)
+        if isinstance(old, ObjV) and old.role == "optstr":
+            return self.fresh_of_kind("optchar", nm)
+        return super().havoc_value(ex, old, nm)
+
+    def yield_(self, ex, node):
+        v = ex.expr(node.value) if node.value is not None else Conc(None)
+        ex.st.ghost.setdefault("yields", []).append(v)
+        return Conc(None)            # nothing is sent back (the send protocol is observed natively: protocol section)
+
+    def after_call(self, ex, c, pre, post):
+        ex.st.ghost.setdefault("calls_done", []).append(c.target)
+        super().after_call(ex, c, pre, post)
+
     # ---- loops over a pair table -----------------------------------------------------------
     def for_loop(self, ex, node, itv, spec, ordn):
+        if isinstance(itv, ObjV) and itv.role == "enum-chars" and getattr(spec, "step", None) is not None:
+            return self.step_loop(ex, node, itv, spec, ordn)
         if not (isinstance(itv, ObjV) and itv.role == "pairs"):
             raise Untranslatable(f"for loop over {itv!r}")
         q = ex.fv.qual
@@ -310,3 +352,39 @@ class LexTheory(ObjTheory):
                 ex.oblige(f"{q}:{lname}:inv-preserved:{nm}", f)
             raise PathEnd()
         ex.stmts(node.orelse)
+
+
+    def step_loop(self, ex, node, itv, spec, ordn):
+        """`for i, char in enumerate(text)` with a one-iteration contract: the loop-carried variables are arbitrary at the
+        head of an arbitrary iteration i; the body is executed once; spec.step compares the state before, the state
+        after and the recorded events (yields) and returns the obligations of the step."""
+        q = ex.fv.qual
+        lname = f"loop#{ordn}"
+        for nm, f in spec.inv(ex.env, ex.st, None):
+            ex.oblige(f"{q}:{lname}:inv-established:{nm}", f)
+        ex.havoc_loop(node, spec)
+        for nm, f in spec.inv(ex.env, ex.st, None):
+            ex.st.assume(f)
+        if ex.path.choose(2, f"for@{node.lineno}") == 1:
+            ex.stmts(node.orelse)
+            return
+        text = itv.info["text"]
+        i = fresh("i", I)
+        ch = charat(text, i)
+        ex.st.assume(z3.And(i >= 0, i < strlen(text), strlen(ch) == 1))
+        ex.assign(node.target, TupV([Z("int", i), Z("str", ch)]))
+        before = dict(ex.env)
+        ex.st.ghost["yields"] = []
+        ex.st.ghost["calls_done"] = []
+        action = "end-of-body"
+        try:
+            ex.stmts(node.body)
+        except _Continue:
+            action = "continue"
+        except _Break:
+            raise Untranslatable("break in the lexer loop")
+        for nm, f in spec.step(ex, before, dict(ex.env), list(ex.st.ghost.get("yields", [])), action):
+            ex.oblige(f"{q}:{lname}:step:{nm}", f)
+        for nm, f in spec.inv(ex.env, ex.st, None):
+            ex.oblige(f"{q}:{lname}:inv-preserved:{nm}", f)
+        raise PathEnd()
